@@ -36,7 +36,7 @@ def correspond(ck, res, cf, hbin, tag, env=None):
 
 # level currently claimed per property (kept in step with tools/mkmanifest.py); "exploration" = the
 # property theorems are not finished yet: only the correspondence + judge decide
-LEVEL = {"C10": "exploration", "C11": "exploration", "C14": "exploration", "C09": "translation_validation", "C04": "exploration", "C05": "exploration", "C12": "exploration", "C13": "exploration"}
+LEVEL = {"C15": "exploration", "C10": "exploration", "C11": "exploration", "C14": "exploration", "C09": "translation_validation", "C04": "exploration", "C05": "exploration", "C12": "exploration", "C13": "exploration"}
 def level_of(pid):
     return LEVEL.get(pid, "proof")
 
@@ -1274,8 +1274,37 @@ def c14_queries(rng, b):
 
 def check_C14(ck, res, replay):
     run_adf_check(ck, res, replay, "C14", c14_queries, 700, 12000, nmax_q=7, nmax_t=9, backends=("native", "hyb0", "hyb1"))
-    # additional judgement: identical numbering and identical answers before / after each round trip
-    hb = os.path.join(ck.ROOT, "harness", "target", "debug", "verif-harness")
+    # the CLI half of the property: --export never overwrites an existing file, --import reproduces the answers
+    binary = build_cli(ck, res)
+    if binary and not replay:
+        import subprocess, hashlib as hl
+        rng = gen.Rng(res.seed ^ 0xE14)
+        tmpd = os.path.join(ck.WORK, "export.%d" % os.getpid())
+        os.makedirs(tmpd, exist_ok=True)
+        n_exp = 0
+        for i in range(25 if res.tier == "quick" else 300):
+            t1, _ = gen.gen_adf(rng, nmax=5, depth=3)
+            t2, _ = gen.gen_adf(rng, nmax=5, depth=3)
+            f1, f2, ex = [os.path.join(tmpd, "%d.%s" % (i, x)) for x in ("a.adf", "b.adf", "json")]
+            open(f1, "w").write(t1); open(f2, "w").write(t2)
+            envp = {"PATH": os.environ.get("PATH", ""), "RUST_LOG": "error"}
+            r1 = subprocess.run([binary, "--lib", "naive", "--export", ex, "--grd", "--stm", f1], capture_output=True, text=True, env=envp, timeout=60)
+            if r1.returncode != 0 or not os.path.exists(ex):
+                res.violations.append({"key": "export:failed", "what": "--export to a fresh path failed (exit %s)" % r1.returncode, "text": t1})
+                continue
+            h1 = hl.sha1(open(ex, "rb").read()).hexdigest()
+            r2 = subprocess.run([binary, "--lib", "naive", "--export", ex, "--grd", f2], capture_output=True, text=True, env=envp, timeout=60)
+            h2 = hl.sha1(open(ex, "rb").read()).hexdigest()
+            if h1 != h2:
+                res.violations.append({"key": "export:overwrite", "what": "--export overwrote an existing file", "text": t1, "second": t2})
+            r3 = subprocess.run([binary, "--lib", "naive", "--import", "--grd", "--stm", ex], capture_output=True, text=True, env=envp, timeout=60)
+            if r3.returncode != 0 or r3.stdout != r1.stdout:
+                res.violations.append({"key": "import:answers-differ", "what": "--import of an exported state answers differently from the original run",
+                                       "text": t1, "observed": [r1.stdout, r3.stdout, r3.returncode]})
+            n_exp += 1
+            for f in (f1, f2, ex):
+                os.remove(f)
+        res.extra["cli_export_import_runs"] = n_exp
     return ck.finish(res, level_of(res.pid), ASSUME_COMMON + ["serde / serde_json transport the records faithfully (exercised, not modelled)"])
 
 
@@ -1454,3 +1483,170 @@ def check_C10(ck, res, replay):
     res.extra["model_mismatches"] = mism
     res.extra["groups"] = len(groups)
     return ck.finish(res, level_of(res.pid), ASSUME_COMMON + ["lexical_sort::natural_lexical_cmp is some total preorder (only 'the result is a permutation' is used by the theorem)"])
+
+
+# ====================================================================== C15 command line
+ALL_FLAGS = ["grd", "com", "stm", "stmca", "stmcb", "stmpre", "stmrew", "stmrew2", "stmng", "twoval"]
+WIRED = {"hybrid": set(ALL_FLAGS), "biodivine": {"grd", "com", "stm", "stmrew", "stmrew2"}, "naive": {"grd", "com", "stm", "stmng"}}
+DOC_HYBRID_ONLY = {"stmpre", "stmrew", "stmrew2"}          # marked "(only hybrid lib-mode)" in the usage text
+SEM_OF = {"grd": "grounded", "com": "complete", "twoval": "twoval"}
+
+
+def build_cli(ck, res):
+    tdir = os.path.join(ck.ROOT, "harness", "target-bin")
+    rc, out = ck.sh("cargo build --offline --quiet -p adf-bdd-bin", cwd=ck.REPO, env={"CARGO_TARGET_DIR": tdir}, timeout=1800)
+    if rc != 0:
+        res.broken.append(("build", "adf-bdd binary (cargo build -p adf-bdd-bin)", out[-2000:]))
+        return None
+    return os.path.join(tdir, "debug", "adf-bdd")
+
+
+def run_cli_cases(ck, binary, cases):
+    """runs the real binary; returns {cid: (exit, stdout lines)}"""
+    import concurrent.futures, subprocess, tempfile
+    tmpd = os.path.join(ck.WORK, "cli.%d" % os.getpid())
+    os.makedirs(tmpd, exist_ok=True)
+    def one(item):
+        cid, c = item
+        p = os.path.join(tmpd, cid + ".adf")
+        with open(p, "w") as f:
+            f.write(c["text"])
+        args = [binary, "--lib", c["mode"]] + (["--lx"] if c["sort"] == "lexi" else ["--an"] if c["sort"] == "alnum" else []) + ["--" + x for x in c["flags"]]
+        if c.get("heu"):
+            args += ["--heu", c["heu"]]
+        if c.get("export"):
+            args += ["--export", c["export"]]
+        args.append(p)
+        try:
+            r = subprocess.run(args, stdout=subprocess.PIPE, stderr=subprocess.PIPE, timeout=60, text=True, env={"PATH": os.environ.get("PATH", ""), "RUST_LOG": "error"})
+            res_ = (r.returncode, r.stdout.splitlines(), r.stderr[-300:])
+        except subprocess.TimeoutExpired:
+            res_ = ("timeout", [], "")
+        os.remove(p)
+        return cid, res_
+    out = {}
+    with concurrent.futures.ThreadPoolExecutor(max_workers=ck.NPROC) as ex:
+        for cid, r in ex.map(one, cases.items()):
+            out[cid] = r
+    return out
+
+
+def check_C15(ck, res, replay):
+    common_front(ck, res, "C15", ties=["TieLeaf"])
+    binary = build_cli(ck, res)
+    rng = gen.Rng(res.seed ^ 0xC15)
+    quick = res.tier == "quick"
+    cases = {}
+    cf = gen.CaseFile()
+    def add(text, mode, sort, flags, heu=None, valid=True):
+        body = ["text " + gen.hexs(text), "mode " + mode, "sort " + sort, "flags " + " ".join(flags)] + (["heu " + heu] if heu else [])
+        cid = cf.add("CLI", body, meta={"text": text, "mode": mode, "sort": sort, "flags": flags, "heu": heu, "valid": valid})
+        cases[cid] = cf.meta[cid][2]
+    if replay:
+        r = json.load(open(replay))
+        m = r["meta"]
+        add(m["text"], m["mode"], m["sort"], m["flags"], m.get("heu"), m.get("valid", True))
+    else:
+        nfiles = 120 if quick else 2000
+        for _ in range(nfiles):
+            text, n = gen.gen_adf(rng, nmax=6, depth=3, style=rng.below(2), layout={"shuffle": rng.chance(1, 3), "ws": rng.chance(1, 3)})
+            for _ in range(6 if quick else 20):
+                mode = rng.pick(["hybrid", "hybrid", "biodivine", "naive"])
+                sort = rng.pick(["none", "lexi"])
+                k = 1 + rng.below(4)
+                flags = [f for f in ALL_FLAGS if f in set(rng.shuffle(ALL_FLAGS)[:k])]
+                heu = rng.pick([None, None, "Simple", "MinModMinPathsMaxVarImp", "MinModMaxVarImpMinPaths"])
+                add(text, mode, sort, flags, heu)
+        # malformed inputs: no interpretation may be printed, non-zero exit
+        for _ in range(150 if quick else 3000):
+            text, n = gen.gen_adf(rng, nmax=4, depth=3, style=rng.below(3), layout={})
+            m = gen.mutate(rng, text)
+            if py_grammar(m) is None:
+                add(m, rng.pick(["hybrid", "biodivine", "naive"]), "none", ["grd", "com", "stm"], None, valid=False)
+    real = run_cli_cases(ck, binary, cases) if binary else {}
+    model, f2 = ck.run_sharded(os.path.join(ck.ROOT, "ocaml", "driver"), cf.lines, "C15.model")
+    if f2:
+        res.broken.append(("correspondence", "model driver process failed", str(f2)))
+    nontriv = set()
+    mism = 0
+    modes = {}
+    for cid, c in cases.items():
+        r, m = real.get(cid), model.get(cid)
+        if r is None:
+            continue
+        code, lines, err = r
+        modes[c["mode"]] = modes.get(c["mode"], 0) + 1
+        if not c["valid"]:
+            if code == 0 or lines:
+                res.violations.append({"key": "cli:malformed-answered", "what": "malformed input: exit %s with %d output lines" % (code, len(lines)), "meta": c, "observed": [code, lines[:3]]})
+            continue
+        if code != 0:
+            key = "cli:heu-abort" if c.get("heu") and "Mismatch between definition and access" in err or (c.get("heu") and code == 101) else "cli:nonzero-exit"
+            res.violations.append({"key": key, "what": "well-formed input, exit status %s: %s" % (code, err.strip().splitlines()[-1] if err.strip() else ""), "meta": c, "observed": [code, lines[:3]]})
+            continue
+        # judge: sections in the documented order with exactly the definitional interpretations
+        names, conds = oracle.parse_adf_text(c["text"])
+        if c["sort"] == "lexi":
+            names = sorted(names, key=lambda s_: s_.encode())
+        o = oracle.AdfOracle(names, conds)
+        def fmt(v):
+            return "".join("%s(%s) " % ({"T": "T", "F": "F", "u": "u"}[ch], nm) for nm, ch in zip(names, v))
+        order = {"hybrid": ["grd", "com", "twoval", "stm", "stmca", "stmcb", "stmpre", "stmrew", "stmng"],
+                 "biodivine": ["grd", "com", "stm", "stmrew"], "naive": ["grd", "com", "stm", "stmng"]}[c["mode"]]
+        fl = set(c["flags"])
+        if "stmrew2" in fl:
+            fl.add("stmrew")
+        pos = 0
+        ok = True
+        for f in order:
+            if f not in fl:
+                continue
+            exp = {"grd": [o.grounded()], "com": o.complete(), "twoval": o.two_valued()}.get(f) or (o.stable() if f not in ("grd", "com", "twoval") else [])
+            if f == "com" or f == "grd" or f == "twoval":
+                exp = {"grd": [o.grounded()], "com": o.complete(), "twoval": o.two_valued()}[f]
+            else:
+                exp = o.stable()
+            seg = lines[pos:pos + len(exp)]
+            pos += len(exp)
+            if sorted(seg) != sorted(fmt(v) for v in exp) or (f == "com" and seg and seg[0] != fmt(o.grounded())):
+                ok = False
+                res.violations.append({"key": "cli:wrong-section:" + f, "what": "section --%s of mode %s does not print exactly the prescribed interpretations" % (f, c["mode"]),
+                                       "meta": c, "observed": lines, "expected_section": [fmt(v) for v in exp]})
+                break
+        if ok and pos != len(lines):
+            res.violations.append({"key": "cli:extra-output", "what": "more output lines than the requested sections prescribe", "meta": c, "observed": lines})
+        ignored = sorted(f for f in c["flags"] if f not in WIRED[c["mode"]] and f not in DOC_HYBRID_ONLY)
+        for ig in ignored:
+            res.violations.append({"key": "cli:ignored:%s:%s" % (c["mode"], ig),
+                                   "what": "mode %s silently ignores --%s (exit 0, nothing printed for it, indistinguishable from 'no model')" % (c["mode"], ig),
+                                   "meta": c, "observed": lines[:3]})
+        if len(c["flags"]) >= 2:
+            nontriv.add((c["text"], c["mode"], tuple(c["flags"]), c["sort"]))
+        # agreement with the model
+        if m is not None:
+            ex = [l for l in m if l.startswith("exit")]
+            secs = [l.split(" ", 3) for l in m if l.startswith("sec")]
+            mlines, seglist = [], []
+            for s_ in secs:
+                ls = [bytes.fromhex(x[1:]).decode().rstrip("\n") for x in (s_[3].split(",") if len(s_) > 3 and s_[3] else [])]
+                seglist.append((s_[2] == "1", ls))
+            p2 = 0
+            same = bool(ex) and ex[0] == "exit 0"
+            for ordered, ls in seglist:
+                seg = lines[p2:p2 + len(ls)]
+                p2 += len(ls)
+                if (seg != ls) if ordered else (sorted(seg) != sorted(ls)):
+                    same = False
+            if not same or p2 != len(lines):
+                mism += 1
+                if mism <= 5:
+                    res.broken.append(("correspondence", "CLI case %s: binary and model differ" % cid, json.dumps({"meta": c, "stdout": lines, "model": m})[:2500]))
+    res.cov["evaluations"] = len(cases)
+    res.cov["distinct_nontrivial"] = len(nontriv)
+    res.cov["rule"] = ("random well-formed files x --lib {hybrid, biodivine, naive} x {none, --lx} x random subsets (1-4) of the ten semantics flags x --heu {absent, 3 values}; "
+                       "a malformed stream (byte-level mutations outside the grammar); the real binary built from the working tree is run; sections judged in the documented order "
+                       "against brute-force semantics with labels, and compared with the Coq model of main.rs; non-trivial = at least two flags, distinct")
+    res.cov["samples"] = [{k: v for k, v in c.items() if k != "valid"} for c in list(cases.values())[:2]]
+    res.extra["modes"] = modes
+    res.extra["model_mismatches"] = mism
+    return ck.finish(res, level_of(res.pid), ASSUME_COMMON + ["clap = the record of parsed flags; process exit status 101 = panic"])
